@@ -65,7 +65,25 @@ func (p *Prog) isTimerChan(f *Func, e ast.Expr) (bool, ast.Expr) {
 		if t := info.TypeOf(se.X); t != nil {
 			ts := t.String()
 			if ts == "*time.Timer" || ts == "*time.Ticker" || ts == "time.Timer" {
-				return true, nil
+				// x := time.NewTimer(d): the duration is d
+				var dur ast.Expr
+				if v, ok := identObj(info, se.X).(*types.Var); ok {
+					ast.Inspect(f.Body, func(x ast.Node) bool {
+						as, ok := x.(*ast.AssignStmt)
+						if !ok {
+							return true
+						}
+						for i, l := range as.Lhs {
+							if identObj(info, l) == v && len(as.Rhs) == len(as.Lhs) {
+								if call, ok := ast.Unparen(as.Rhs[i]).(*ast.CallExpr); ok && p.CalleeName(f, call) == "time.NewTimer" {
+									dur = call.Args[0]
+								}
+							}
+						}
+						return true
+					})
+				}
+				return true, dur
 			}
 		}
 	}
